@@ -228,7 +228,7 @@ func nontrivialStream(s *gen.Stream) bool {
 }
 
 func runC02(c *mon.Ctx) {
-	n := c.Pick(3000, 20000)
+	n := c.Pick(3000, 150000)
 	for i := int64(0); i < n; i++ {
 		if !c.Mine("streams", i) {
 			continue
@@ -247,7 +247,7 @@ func runC02(c *mon.Ctx) {
 		}
 	}
 	// exhaustive cuts: every first-chunk size and every last-chunk size of one unit inside a small context
-	ne := c.Pick(120, 600)
+	ne := c.Pick(120, 2500)
 	for i := int64(0); i < ne; i++ {
 		if !c.Mine("cuts", i) {
 			continue
